@@ -100,15 +100,95 @@ func c05Pipeline(c *Ctx, rule string) {
 
 var opOfToken = map[string]token.Token{"EQ": token.EQL, "NEQ": token.NEQ, "GT": token.GTR, "GTE": token.GEQ, "LT": token.LSS, "LTE": token.LEQ}
 
-func sideOf(name string) int {
-	n := strings.TrimLeft(name, "_")
-	switch n {
-	case "lhs":
-		return 1
-	case "rhs":
-		return 2
+// sideOf tells whether an identifier denotes the left (1) or right (2) operand value.
+// Sides are resolved by dataflow: a variable defined from a call whose first argument is
+// X.LHS / X.RHS, from rows[i] / rows[j] of a comparator closure (first / second parameter),
+// or by asserting / type-switching a variable that already has a side.
+func sideOf(f *Func, id *ast.Ident) int {
+	m, ok := f.w.memo["sides:"+f.Name].(map[types.Object]int)
+	if !ok {
+		m = buildSides(f)
+		f.w.memo["sides:"+f.Name] = m
 	}
-	return 0
+	return m[f.ObjOf(id)]
+}
+
+func buildSides(f *Func) map[types.Object]int {
+	m := map[types.Object]int{}
+	// comparator closures: parameter 0 indexes the left row, parameter 1 the right row
+	idxSide := map[types.Object]int{}
+	for _, l := range f.FuncLits() {
+		k := 0
+		for _, p := range l.Type.Params.List {
+			for _, n := range p.Names {
+				if k < 2 {
+					idxSide[f.ObjOf(n)] = k + 1
+				}
+				k++
+			}
+		}
+	}
+	sideOfExpr := func(e ast.Expr) int {
+		e = stripAssert(e)
+		if id, ok := e.(*ast.Ident); ok {
+			return m[f.ObjOf(id)]
+		}
+		if call, ok := e.(*ast.CallExpr); ok && len(call.Args) > 0 {
+			if sel, ok := ast.Unparen(call.Args[0]).(*ast.SelectorExpr); ok {
+				switch sel.Sel.Name {
+				case "LHS":
+					return 1
+				case "RHS":
+					return 2
+				}
+			}
+		}
+		side := 0
+		ast.Inspect(e, func(n ast.Node) bool {
+			if ix, ok := n.(*ast.IndexExpr); ok {
+				if id, ok := ast.Unparen(ix.Index).(*ast.Ident); ok {
+					if s := idxSide[f.ObjOf(id)]; s != 0 && side == 0 {
+						side = s
+					}
+				}
+			}
+			return true
+		})
+		return side
+	}
+	for changed := true; changed; {
+		changed = false
+		ast.Inspect(f.Decl.Body, func(n ast.Node) bool {
+			switch y := n.(type) {
+			case *ast.AssignStmt:
+				if len(y.Rhs) == 1 && len(y.Lhs) >= 1 {
+					if id, ok := y.Lhs[0].(*ast.Ident); ok && id.Name != "_" {
+						if s := sideOfExpr(y.Rhs[0]); s != 0 && m[f.ObjOf(id)] == 0 {
+							m[f.ObjOf(id)] = s
+							changed = true
+						}
+					}
+				}
+			case *ast.TypeSwitchStmt:
+				as, ok := y.Assign.(*ast.AssignStmt)
+				if !ok || len(as.Rhs) != 1 {
+					return true
+				}
+				s := sideOfExpr(as.Rhs[0])
+				if s == 0 {
+					return true
+				}
+				for _, cl := range y.Body.List {
+					if obj := f.Pkg.TypesInfo.Implicits[cl]; obj != nil && m[obj] == 0 {
+						m[obj] = s
+						changed = true
+					}
+				}
+			}
+			return true
+		})
+	}
+	return m
 }
 
 func mirror(op token.Token) token.Token {
@@ -139,7 +219,7 @@ func normalisedCompare(f *Func, e ast.Expr) (token.Token, bool) {
 	l, lok := stripAssert(be.X).(*ast.Ident)
 	r, rok := stripAssert(be.Y).(*ast.Ident)
 	if lok && rok {
-		a, b := sideOf(l.Name), sideOf(r.Name)
+		a, b := sideOf(f, l), sideOf(f, r)
 		if a == 1 && b == 2 {
 			return be.Op, true
 		}
@@ -154,7 +234,7 @@ func normalisedCompare(f *Func, e ast.Expr) (token.Token, bool) {
 			x, xok := stripAssert(call.Args[0]).(*ast.Ident)
 			y, yok := stripAssert(call.Args[1]).(*ast.Ident)
 			if xok && yok {
-				a, b := sideOf(x.Name), sideOf(y.Name)
+				a, b := sideOf(f, x), sideOf(f, y)
 				if a == 1 && b == 2 {
 					return be.Op, true
 				}
@@ -247,10 +327,14 @@ func c05Comparisons(c *Ctx, rule string) {
 		// CompOp is the matched token
 		okOp := false
 		for _, lit := range pf.compositeLitsIn(pf.Decl.Body, "sql", "ComparisonPredicate") {
-			if v := kvField(lit, "CompOp"); v != nil && exprKey(v) == "p.Prev().Type" {
+			if v := kvField(lit, "CompOp"); v != nil && exprKey(v) == recvName(pf)+".Prev().Type" {
 				okOp = true
 			}
-			if v := kvField(lit, "LHS"); v == nil || exprKey(v) != "lhs" {
+			if v := kvField(lit, "LHS"); v == nil {
+				okOp = false
+			} else if id, isId := ast.Unparen(v).(*ast.Ident); !isId {
+				okOp = false
+			} else if rhs, _, ok := pf.definedBy(pf.Decl.Body, pf.ObjOf(id)); !ok || !strings.HasSuffix(exprKey(rhs), ".ValueExpression()") {
 				okOp = false
 			}
 		}
@@ -262,10 +346,10 @@ func c05Comparisons(c *Ctx, rule string) {
 		if as, ok := x.(*ast.AssignStmt); ok && len(as.Lhs) == 2 && len(as.Rhs) == 1 {
 			if call, ok := as.Rhs[0].(*ast.CallExpr); ok && f.CallIs(call, "engine.evalPrimary") && len(call.Args) >= 1 {
 				if id, ok := as.Lhs[0].(*ast.Ident); ok {
-					if sideOf(id.Name) == 1 && strings.HasSuffix(exprKey(call.Args[0]), ".LHS") {
+					if sideOf(f, id) == 1 && strings.HasSuffix(exprKey(call.Args[0]), ".LHS") {
 						okSides++
 					}
-					if sideOf(id.Name) == 2 && strings.HasSuffix(exprKey(call.Args[0]), ".RHS") {
+					if sideOf(f, id) == 2 && strings.HasSuffix(exprKey(call.Args[0]), ".RHS") {
 						okSides++
 					}
 				}
@@ -334,7 +418,7 @@ func c05BoolOps(c *Ctx, rule string) {
 		be := ast.Unparen(res.Results[0]).(*ast.BinaryExpr)
 		l, lok := ast.Unparen(be.X).(*ast.Ident)
 		r, rok := ast.Unparen(be.Y).(*ast.Ident)
-		okOp := be.Op == spec.op && lok && rok && sideOf(l.Name)+sideOf(r.Name) == 3
+		okOp := be.Op == spec.op && lok && rok && sideOf(f, l)+sideOf(f, r) == 3
 		c.Check(okOp, rule, key, res.Pos(), "returns lhs "+spec.op.String()+" rhs", spec.fn+" combines its operands with "+be.Op.String()+" instead of "+spec.op.String())
 		// both operands evaluated on every path to every return that is not an evaluation error of the FIRST operand
 		evals := f.Calls(f.Decl.Body, false, "engine.evaluate")
@@ -461,10 +545,10 @@ func c05Layering(c *Ctx, rule string) {
 // ---- C05.5 -----------------------------------------------------------------------------
 
 // evalBool evaluates a boolean expression over identifiers lhs/rhs (by side) for given values.
-func evalBool(e ast.Expr, l, r bool) (bool, bool) {
+func evalBool(f *Func, e ast.Expr, l, r bool) (bool, bool) {
 	switch x := ast.Unparen(e).(type) {
 	case *ast.Ident:
-		switch sideOf(x.Name) {
+		switch sideOf(f, x) {
 		case 1:
 			return l, true
 		case 2:
@@ -476,17 +560,17 @@ func evalBool(e ast.Expr, l, r bool) (bool, bool) {
 		if x.Name == "false" {
 			return false, true
 		}
-		if x.Name == "ok" {
+		if isCommaOK(f, x) {
 			return true, true // the comma-ok result of asserting the right value to the left value's type
 		}
 	case *ast.UnaryExpr:
 		if x.Op == token.NOT {
-			v, ok := evalBool(x.X, l, r)
+			v, ok := evalBool(f, x.X, l, r)
 			return !v, ok
 		}
 	case *ast.BinaryExpr:
-		a, ok1 := evalBool(x.X, l, r)
-		b, ok2 := evalBool(x.Y, l, r)
+		a, ok1 := evalBool(f, x.X, l, r)
+		b, ok2 := evalBool(f, x.Y, l, r)
 		if !ok1 || !ok2 {
 			return false, false
 		}
@@ -552,7 +636,7 @@ func c05SortComparator(c *Ctx, rule string) {
 			// strip a leading `ok &&`
 			core := ast.Unparen(rhs)
 			if be, ok := core.(*ast.BinaryExpr); ok && be.Op == token.LAND {
-				if id, ok := ast.Unparen(be.X).(*ast.Ident); ok && id.Name == "ok" {
+				if id, ok := ast.Unparen(be.X).(*ast.Ident); ok && isCommaOK(f, id) {
 					core = ast.Unparen(be.Y)
 				}
 			}
@@ -561,8 +645,8 @@ func c05SortComparator(c *Ctx, rule string) {
 				op, ok := normalisedCompare(f, core)
 				c.Check(ok && op == token.LSS, rule, key, cc.Pos(), "less = left < right", "the "+tn+" arm does not compute left < right (computes "+exprKey(rhs)+"): ORDER BY sorts this type in the wrong direction")
 			case "bool":
-				v1, ok1 := evalBool(core, false, true)
-				v2, ok2 := evalBool(core, true, false)
+				v1, ok1 := evalBool(f, core, false, true)
+				v2, ok2 := evalBool(f, core, true, false)
 				if !ok1 || !ok2 {
 					c.Undecided(rule, key, "boolean comparison %s not understood", exprKey(rhs))
 				} else {
@@ -599,7 +683,16 @@ func c05SortComparator(c *Ctx, rule string) {
 			okDesc = true
 		}
 		// the ordering consulted is that of the key being compared
-		if !strings.Contains(exprKey(be.X), "[sortIdx]") {
+		keyVar := ""
+		ast.Inspect(cmp.Body, func(z ast.Node) bool {
+			if rs, ok := z.(*ast.RangeStmt); ok && keyVar == "" {
+				if k, ok := rs.Key.(*ast.Ident); ok {
+					keyVar = k.Name
+				}
+			}
+			return true
+		})
+		if !strings.Contains(exprKey(be.X), "["+keyVar+"]") {
 			okDesc = false
 		}
 		return true
@@ -613,7 +706,7 @@ func c05SortComparator(c *Ctx, rule string) {
 			if be, ok := ast.Unparen(ifs.Cond).(*ast.BinaryExpr); ok && be.Op == token.EQL {
 				l, lok := ast.Unparen(be.X).(*ast.Ident)
 				r, rok := ast.Unparen(be.Y).(*ast.Ident)
-				if lok && rok && sideOf(l.Name)+sideOf(r.Name) == 3 && endsWithContinue(ifs.Body) {
+				if lok && rok && sideOf(f, l)+sideOf(f, r) == 3 && endsWithContinue(ifs.Body) {
 					okEq = true
 				}
 			}
@@ -621,16 +714,16 @@ func c05SortComparator(c *Ctx, rule string) {
 		return true
 	})
 	c.Check(okEq, rule, key, cmp.Pos(), "equal values move on to the next sort key", "equal key values do not fall through to the next ORDER BY key")
-	// left value from rows[i], right from rows[j]; sortIdxs in ORDER BY order
+	// the comparator's first parameter selects the left value, the second the right value
 	okIJ := 0
 	ast.Inspect(cmp.Body, func(x ast.Node) bool {
 		if as, ok := x.(*ast.AssignStmt); ok && len(as.Lhs) == 1 && len(as.Rhs) == 1 {
 			if id, ok := as.Lhs[0].(*ast.Ident); ok {
 				s := exprKey(as.Rhs[0])
-				if sideOf(id.Name) == 1 && strings.HasPrefix(s, "rows[i].") {
+				if sideOf(f, id) == 1 && strings.Contains(s, "["+litParamName(cmp, 0)+"].") {
 					okIJ++
 				}
-				if sideOf(id.Name) == 2 && strings.HasPrefix(s, "rows[j].") {
+				if sideOf(f, id) == 2 && strings.Contains(s, "["+litParamName(cmp, 1)+"].") {
 					okIJ++
 				}
 			}
@@ -670,7 +763,7 @@ func c05LimitOffset(c *Ctx, rule string) {
 		ok := false
 		inspectBody(lf.Decl.Body, func(x ast.Node) bool {
 			if r, isRet := x.(*ast.ReturnStmt); isRet && len(r.Results) == 1 {
-				if s, isS := ast.Unparen(r.Results[0]).(*ast.SliceExpr); isS && s.High != nil && exprKey(s.High) == "limit" && (s.Low == nil || exprKey(s.Low) == "0") {
+				if s, isS := ast.Unparen(r.Results[0]).(*ast.SliceExpr); isS && s.High != nil && exprKey(s.High) == paramName(lf, 0) && (s.Low == nil || exprKey(s.Low) == "0") {
 					ok = true
 				}
 			}
@@ -682,7 +775,7 @@ func c05LimitOffset(c *Ctx, rule string) {
 		ok := false
 		inspectBody(of.Decl.Body, func(x ast.Node) bool {
 			if r, isRet := x.(*ast.ReturnStmt); isRet && len(r.Results) == 1 {
-				if s, isS := ast.Unparen(r.Results[0]).(*ast.SliceExpr); isS && s.Low != nil && exprKey(s.Low) == "offset" && s.High == nil {
+				if s, isS := ast.Unparen(r.Results[0]).(*ast.SliceExpr); isS && s.Low != nil && exprKey(s.Low) == paramName(of, 0) && s.High == nil {
 					ok = true
 				}
 			}
@@ -879,22 +972,50 @@ func c06JoinMapping(c *Ctx, rule string) {
 }
 
 func c06Arms(c *Ctx, rule string) {
-	c.Rule(rule, "in every arm of nestedLoopJoin the merged row is left.Merge(right), matching the header order lFields ++ rFields; the LEFT arm pads with a row of len(rFields) NULLs as the argument, the RIGHT arm with len(lFields) NULLs as the receiver; the padded row is appended exactly on the not-matched edge after the inner loop; the outer loop runs over the preserved side")
+	c.Rule(rule, "in every arm of nestedLoopJoin the merged row is left.Merge(right), matching the header order (left fields ++ right fields); the LEFT arm pads with a row of len(right fields) NULLs as the argument, the RIGHT arm with len(left fields) NULLs as the receiver; the padded row is appended exactly on the not-matched edge after the inner loop; the outer loop runs over the preserved side. Left/right rows and fields are identified by dataflow: the results of the recursive calls on the join's LHS and RHS")
 	f := c.NeedFunc(rule, "engine.nestedLoopJoin")
 	if f == nil {
 		return
 	}
-	// header order
-	var appended []string
+	// roles: results of nestedLoopJoin(rm, v.LHS) and nestedLoopJoin(rm, v.RHS)
+	var lRows, lFields, rRows, rFields types.Object
+	for _, call := range f.Calls(f.Decl.Body, false, "engine.nestedLoopJoin") {
+		if len(call.Args) != 2 {
+			continue
+		}
+		switch {
+		case strings.HasSuffix(exprKey(call.Args[1]), ".LHS"):
+			lRows, lFields = f.resultVar(f.Decl.Body, call, 0), f.resultVar(f.Decl.Body, call, 1)
+		case strings.HasSuffix(exprKey(call.Args[1]), ".RHS"):
+			rRows, rFields = f.resultVar(f.Decl.Body, call, 0), f.resultVar(f.Decl.Body, call, 1)
+		}
+	}
+	if lRows == nil || lFields == nil || rRows == nil || rFields == nil {
+		c.Undecided(rule, f.Name+"|roles", "the recursive evaluation of the join's LHS and RHS was not found")
+		return
+	}
+	objOf := func(e ast.Expr) types.Object {
+		if id, ok := ast.Unparen(e).(*ast.Ident); ok {
+			return f.ObjOf(id)
+		}
+		return nil
+	}
+	// header: H = append(H, lFields...) then append(H, rFields...)
+	var header types.Object
+	var appended []types.Object
 	inspectBody(f.Decl.Body, func(x ast.Node) bool {
-		if as, ok := x.(*ast.AssignStmt); ok && len(as.Lhs) == 1 && exprKey(as.Lhs[0]) == "tmpFields" {
-			if call, ok := as.Rhs[0].(*ast.CallExpr); ok && len(call.Args) == 2 {
-				appended = append(appended, exprKey(call.Args[1]))
+		if as, ok := x.(*ast.AssignStmt); ok && len(as.Lhs) == 1 && len(as.Rhs) == 1 {
+			if args, self := f.isSelfAppend(as, objOf(as.Lhs[0])); self && len(args) == 1 {
+				if o := objOf(args[0]); o == lFields || o == rFields {
+					header = objOf(as.Lhs[0])
+					appended = append(appended, o)
+				}
 			}
 		}
 		return true
 	})
-	c.Check(strings.Join(appended, ",") == "lFields,rFields", rule, f.Name+"|header-order", f.Decl.Pos(), "header = lFields ++ rFields", "the joined header is not lFields followed by rFields")
+	okHeader := len(appended) == 2 && appended[0] == lFields && appended[1] == rFields
+	c.Check(okHeader, rule, f.Name+"|header-order", f.Decl.Pos(), "header = left fields ++ right fields", "the joined header is not the left side's fields followed by the right side's fields")
 	inspectBody(f.Decl.Body, func(x ast.Node) bool {
 		cc, ok := x.(*ast.CaseClause)
 		if !ok {
@@ -908,29 +1029,49 @@ func c06Arms(c *Ctx, rule string) {
 			arm := &ast.BlockStmt{List: cc.Body}
 			key := f.Name + "|" + cst.Name()
 			var problems []string
-			// pad rows
-			pads := map[string]string{} // var -> len arg
-			inspectBody(arm, func(y ast.Node) bool {
-				if as, ok := y.(*ast.AssignStmt); ok && len(as.Lhs) == 1 && len(as.Rhs) == 1 {
-					ast.Inspect(as.Rhs[0], func(z ast.Node) bool {
-						if mk, ok := z.(*ast.CallExpr); ok {
-							if id, ok := mk.Fun.(*ast.Ident); ok && id.Name == "make" && len(mk.Args) == 2 {
-								pads[exprKey(as.Lhs[0])] = exprKey(mk.Args[1])
-							}
+			// row roles inside this arm: range variables over lRows / rRows; pad rows made with len(lFields)/len(rFields)
+			side := map[types.Object]int{} // 1 = left width, 2 = right width
+			var padSides []int
+			ast.Inspect(arm, func(y ast.Node) bool {
+				switch z := y.(type) {
+				case *ast.RangeStmt:
+					if v, ok := z.Value.(*ast.Ident); ok {
+						switch objOf(z.X) {
+						case lRows:
+							side[f.ObjOf(v)] = 1
+						case rRows:
+							side[f.ObjOf(v)] = 2
 						}
-						return true
-					})
+					}
+				case *ast.AssignStmt:
+					if len(z.Lhs) == 1 && len(z.Rhs) == 1 {
+						ast.Inspect(z.Rhs[0], func(w ast.Node) bool {
+							if mk, ok := w.(*ast.CallExpr); ok {
+								if id, ok := mk.Fun.(*ast.Ident); ok && id.Name == "make" && len(mk.Args) == 2 {
+									if ln, ok := ast.Unparen(mk.Args[1]).(*ast.CallExpr); ok && len(ln.Args) == 1 {
+										switch objOf(ln.Args[0]) {
+										case lFields:
+											side[objOf(z.Lhs[0])] = 1
+											padSides = append(padSides, 1)
+										case rFields:
+											side[objOf(z.Lhs[0])] = 2
+											padSides = append(padSides, 2)
+										}
+									}
+								}
+							}
+							return true
+						})
+					}
 				}
 				return true
 			})
 			merges := f.Calls(arm, false, "storage.Row.Merge")
 			for _, m := range merges {
-				recv := exprKey(m.Fun.(*ast.SelectorExpr).X)
-				arg := exprKey(m.Args[0])
-				isLeft := func(s string) bool { return s == "lRow" || pads[s] == "len(lFields)" }
-				isRight := func(s string) bool { return s == "rRow" || pads[s] == "len(rFields)" }
-				if !isLeft(recv) || !isRight(arg) {
-					problems = append(problems, recv+".Merge("+arg+") does not put a left-width row first and a right-width row second")
+				recv := objOf(m.Fun.(*ast.SelectorExpr).X)
+				arg := objOf(m.Args[0])
+				if side[recv] != 1 || side[arg] != 2 {
+					problems = append(problems, exprKey(m)+" does not put a left-width row first and a right-width row second")
 				}
 			}
 			switch cst.Name() {
@@ -942,55 +1083,66 @@ func c06Arms(c *Ctx, rule string) {
 				if len(merges) != 2 {
 					problems = append(problems, "expected two Merges (matched rows and padded rows)")
 				}
-				wantPad := map[string]string{"LEFT_JOIN": "len(rFields)", "RIGHT_JOIN": "len(lFields)"}[cst.Name()]
+				wantPad := map[string]int{"LEFT_JOIN": 2, "RIGHT_JOIN": 1}[cst.Name()]
 				havePad := false
-				for _, l := range pads {
-					if l == wantPad {
+				for _, p := range padSides {
+					if p == wantPad {
 						havePad = true
 					}
 				}
 				if !havePad {
-					problems = append(problems, "the NULL padding row is not "+wantPad+" wide: for tables of different widths the padded columns shift or a later column reference indexes out of range")
+					problems = append(problems, "the NULL padding row does not have the width of the other side: for tables of different widths the padded columns shift or a later column reference indexes out of range")
 				}
-				// outer loop over preserved side
+				wantOuter := map[string]types.Object{"LEFT_JOIN": lRows, "RIGHT_JOIN": rRows}[cst.Name()]
 				outerOK := false
 				for _, st := range cc.Body {
-					if rs, ok := st.(*ast.RangeStmt); ok {
-						wantOuter := map[string]string{"LEFT_JOIN": "lRows", "RIGHT_JOIN": "rRows"}[cst.Name()]
-						if exprKey(rs.X) == wantOuter {
-							outerOK = true
-							// not-matched append after inner loop
-							okUnmatched := false
-							for _, s2 := range rs.Body.List {
-								if ifs, ok := s2.(*ast.IfStmt); ok && exprKey(ifs.Cond) == "!hasMatch" {
-									if len(f.Calls(ifs.Body, false, "storage.Row.Merge")) == 1 {
-										okUnmatched = true
-									}
-								}
-							}
-							if !okUnmatched {
-								problems = append(problems, "the padded row is not appended on the !hasMatch edge after the inner loop")
-							}
-							// hasMatch reset per outer row and set on match
-							reset := false
-							for _, s2 := range rs.Body.List {
-								if as, ok := s2.(*ast.AssignStmt); ok && exprKey(as.Lhs[0]) == "hasMatch" && exprKey(as.Rhs[0]) == "false" && as.Tok == token.DEFINE {
-									reset = true
-								}
-							}
-							if !reset {
-								problems = append(problems, "hasMatch is not reset for every outer row")
+					rs, ok := st.(*ast.RangeStmt)
+					if !ok || objOf(rs.X) != wantOuter {
+						continue
+					}
+					outerOK = true
+					// matched flag: a bool defined false at the top of the outer body, set true in the inner loop, tested negated after it
+					var flag types.Object
+					for _, s2 := range rs.Body.List {
+						if as, ok := s2.(*ast.AssignStmt); ok && as.Tok == token.DEFINE && len(as.Rhs) == 1 {
+							if cv := f.constOf(as.Rhs[0]); cv != nil && cv.String() == "false" {
+								flag = objOf(as.Lhs[0])
 							}
 						}
+					}
+					okUnmatched := false
+					for _, s2 := range rs.Body.List {
+						if ifs, ok := s2.(*ast.IfStmt); ok {
+							if u, ok := ast.Unparen(ifs.Cond).(*ast.UnaryExpr); ok && u.Op == token.NOT && flag != nil && objOf(u.X) == flag {
+								if len(f.Calls(ifs.Body, false, "storage.Row.Merge")) == 1 {
+									okUnmatched = true
+								}
+							}
+						}
+					}
+					if flag == nil {
+						problems = append(problems, "the matched flag is not reset for every outer row")
+					} else if !okUnmatched {
+						problems = append(problems, "the padded row is not appended on the not-matched edge after the inner loop")
 					}
 				}
 				if !outerOK {
 					problems = append(problems, "the outer loop does not run over the preserved side")
 				}
 			}
-			// the join condition is evaluated on the merged row with the merged header, and a true result appends it
+			// the join condition is evaluated on the merged row with the merged header
 			evs := f.Calls(arm, false, "engine.evaluate")
-			if len(evs) != 1 || len(evs[0].Args) != 3 || exprKey(evs[0].Args[1]) != "tmpFields" || exprKey(evs[0].Args[2]) != "tmpRow" || !strings.HasSuffix(exprKey(evs[0].Args[0]), ".JoinCondition") {
+			okEval := false
+			if len(evs) == 1 && len(evs[0].Args) == 3 && strings.HasSuffix(exprKey(evs[0].Args[0]), ".JoinCondition") && objOf(evs[0].Args[1]) == header {
+				if rowObj := objOf(evs[0].Args[2]); rowObj != nil {
+					if rhs, _, ok := f.definedBy(arm, rowObj); ok {
+						if call, ok := ast.Unparen(rhs).(*ast.CallExpr); ok && f.CallIs(call, "storage.Row.Merge") {
+							okEval = true
+						}
+					}
+				}
+			}
+			if !okEval {
 				problems = append(problems, "the ON condition is not evaluated on the merged row with the merged header")
 			}
 			if len(problems) > 0 {
@@ -1009,7 +1161,7 @@ func c06Ambiguity(c *Ctx, rule string) {
 		okAmb := false
 		inspectBody(f.Decl.Body, func(x ast.Node) bool {
 			if ifs, ok := x.(*ast.IfStmt); ok {
-				if be, ok := ast.Unparen(ifs.Cond).(*ast.BinaryExpr); ok && (be.Op == token.GTR || be.Op == token.GEQ || be.Op == token.NEQ) && exprKey(be.X) == "foundIdx" {
+				if be, ok := ast.Unparen(ifs.Cond).(*ast.BinaryExpr); ok && (be.Op == token.GTR || be.Op == token.GEQ || be.Op == token.NEQ) {
 					ast.Inspect(ifs.Body, func(y ast.Node) bool {
 						if id, ok := y.(*ast.Ident); ok && id.Name == "ErrFieldAmbiguous" {
 							okAmb = true
@@ -1027,7 +1179,7 @@ func c06Ambiguity(c *Ctx, rule string) {
 		inspectBody(f.Decl.Body, func(x ast.Node) bool {
 			if ifs, ok := x.(*ast.IfStmt); ok {
 				s := exprKey(ifs.Cond)
-				if strings.Contains(s, "f.Column==fieldName") && strings.Contains(s, "f.TableID==tableID") && strings.Contains(s, "&&") {
+				if strings.Contains(s, ".Column=="+paramName(f, 1)) && strings.Contains(s, ".TableID=="+paramName(f, 0)) && strings.Contains(s, "&&") {
 					okBoth = true
 				}
 			}
@@ -1038,7 +1190,7 @@ func c06Ambiguity(c *Ctx, rule string) {
 	if f := c.NeedFunc(rule, "engine.findColumnInFieldList"); f != nil {
 		okSel := false
 		inspectBody(f.Decl.Body, func(x ast.Node) bool {
-			if ifs, ok := x.(*ast.IfStmt); ok && exprKey(ifs.Cond) == "selectCol.Qualifier!=\"\"" {
+			if ifs, ok := x.(*ast.IfStmt); ok && exprKey(ifs.Cond) == paramName(f, 0)+".Qualifier!=\"\"" {
 				if len(f.Calls(ifs.Body, false, "storage.Fields.LookupColIdxByID")) == 1 {
 					okSel = true
 				}
@@ -1051,9 +1203,9 @@ func c06Ambiguity(c *Ctx, rule string) {
 	if f := c.NeedFunc(rule, "engine.nestedLoopJoin"); f != nil {
 		okAlias := false
 		inspectBody(f.Decl.Body, func(x ast.Node) bool {
-			if ifs, ok := x.(*ast.IfStmt); ok && exprKey(ifs.Cond) == "v.CorrelationName!=nil" {
+			if ifs, ok := x.(*ast.IfStmt); ok && strings.HasSuffix(exprKey(ifs.Cond), ".CorrelationName!=nil") {
 				for _, st := range ifs.Body.List {
-					if as, ok := st.(*ast.AssignStmt); ok && exprKey(as.Lhs[0]) == "tableID" && strings.HasPrefix(exprKey(as.Rhs[0]), "v.CorrelationName") {
+					if as, ok := st.(*ast.AssignStmt); ok && strings.Contains(exprKey(as.Rhs[0]), ".CorrelationName") {
 						okAlias = true
 					}
 				}
@@ -1062,8 +1214,10 @@ func c06Ambiguity(c *Ctx, rule string) {
 		})
 		def := false
 		inspectBody(f.Decl.Body, func(x ast.Node) bool {
-			if as, ok := x.(*ast.AssignStmt); ok && as.Tok == token.DEFINE && exprKey(as.Lhs[0]) == "tableID" && exprKey(as.Rhs[0]) == "v.Name" {
-				def = true
+			if as, ok := x.(*ast.AssignStmt); ok && as.Tok == token.DEFINE && len(as.Rhs) == 1 && strings.HasSuffix(exprKey(as.Rhs[0]), ".Name") {
+				if t := f.TypeOf(as.Rhs[0]); t != nil && typeName(t) == "string" {
+					def = true
+				}
 			}
 			return true
 		})
@@ -1342,4 +1496,21 @@ func stripAssert(e ast.Expr) ast.Expr {
 		}
 		e = ta.X
 	}
+}
+
+// isCommaOK: the identifier is the second variable of a `v, ok := x.(T)` definition.
+func isCommaOK(f *Func, id *ast.Ident) bool {
+	obj := f.ObjOf(id)
+	found := false
+	ast.Inspect(f.Decl.Body, func(n ast.Node) bool {
+		if as, ok := n.(*ast.AssignStmt); ok && len(as.Lhs) == 2 && len(as.Rhs) == 1 {
+			if _, isTA := ast.Unparen(as.Rhs[0]).(*ast.TypeAssertExpr); isTA {
+				if l, ok := as.Lhs[1].(*ast.Ident); ok && f.ObjOf(l) == obj {
+					found = true
+				}
+			}
+		}
+		return true
+	})
+	return found
 }
